@@ -334,7 +334,7 @@ func ParseLine(line string) interface{} {
 
 		var t time.Duration
 
-		if len(d[1]) > 1 {
+		if len(d[1]) > 0 {
 
 			var err error //manage the scope of t
 
